@@ -23,6 +23,8 @@ func TestSim(t *testing.T) {
 				RunC09(st, tier, leg, logOn, res)
 			case "C11":
 				RunC11(st, tier, leg, logOn, res)
+			case "C12":
+				RunC12(st, tier, leg, logOn, res)
 			default:
 				panic("unknown SIM_PROP " + prop)
 			}
